@@ -55,6 +55,20 @@ static const char *showState(RequestParser::State s) {
     return "?";
 }
 
+static const char *methodName(Method m) {
+    switch (m) {
+        case Method::kUnset: return "kUnset"; case Method::kGet: return "kGet"; case Method::kHead: return "kHead";
+        case Method::kPut: return "kPut"; case Method::kPost: return "kPost"; case Method::kTrace: return "kTrace";
+        case Method::kOptions: return "kOptions"; case Method::kDelete: return "kDelete"; default: return "?";
+    }
+}
+static const char *verName(HttpVer v) {
+    switch (v) {
+        case HttpVer::kUnset: return "kUnset"; case HttpVer::k1_0: return "k1_0"; case HttpVer::k1_1: return "k1_1";
+        case HttpVer::k2_0: return "k2_0"; default: return "?";
+    }
+}
+
 // ---------------------------------------------------------------- parser level
 struct PConn {
     RequestParser parser;
@@ -184,7 +198,11 @@ int main() {
         std::vector<uint8_t> d; uint64_t n = 0;
         bool ok = true;
         try {
-            if (op == "feed" && w.size() == 2 && vh::unhex(w[1], d) && !sv) {
+            if (op == "method" && w.size() == 2 && vh::unhex(w[1], d)) {
+                std::cout << "P method " << methodName(StringToMethod(std::string(d.begin(), d.end()))) << "\n";
+            } else if (op == "version" && w.size() == 2 && vh::unhex(w[1], d)) {
+                std::cout << "P version " << verName(StringToHttpVer(std::string(d.begin(), d.end()))) << "\n";
+            } else if (op == "feed" && w.size() == 2 && vh::unhex(w[1], d) && !sv) {
                 if (!pc) pc.reset(new PConn);
                 doFeed(*pc, d);
             } else if (op == "srv" && w.size() == 1 && !sv && !pc) {
